@@ -17,6 +17,17 @@ pub fn corr(ctx: &mut Ctx) {
     for i in 0..ctx.n {
         let mut case = gen_case(&mut rng, Profile::Any, false, 10);
         case.opts.scale_16 = false;
+        if i % 3 == 1 {
+            // with metadata whose layout depends on the colour type (kept: no stripping), so that a result
+            // returned at any expiry position must have gone through the same chunk clean-up
+            let mut enc = crate::meta_oracle::gen_meta(&mut rng, &case.img, true);
+            enc.fixed_filter = None;
+            enc.pre_idat.retain(|c| &c.0 != b"caBX");
+            case.input = case.img.encode_png(&mut rng, &enc);
+            case.enc = enc;
+            case.opts.strip = if rng.chance(2, 3) { HStrip::None } else { HStrip::Safe };
+            st.count("cases_with_metadata");
+        }
         if i % 4 == 0 {
             // all reductions on, several filters: many checks
             case.opts.bit_depth_reduction = true;
